@@ -186,7 +186,7 @@ const chunk = 16
 
 // fullAlphabet says whether base b gets the full 256-value alphabets.
 func fullAlphabet(b *base) bool {
-	return vk.Thorough() || (b.tname == sigTimes[0].name && b.named == b.key)
+	return vk.Thorough() || (b.tname == sigTimes[0].name && b.named == b.key && (b.doc.name == "minimal" || b.doc.name == "sha1signer"))
 }
 
 // mutate1: every single-byte edit of every base document. Edits that produce
@@ -239,7 +239,7 @@ func (r *runner) mutate1() {
 			}
 		}
 	}
-	alpha := "substitution by the 8 single-bit flips + the 6 structural symbols \" , } { : space; insertion of the 8 bit flips of the following byte, the 6 structural symbols, a duplicate of the byte, \\ = and newline; for the documents signed at the first signature time by the key they name: substitution by all 255 other byte values and insertion of all 256 byte values"
+	alpha := "substitution by the 8 single-bit flips + the 6 structural symbols \" , } { : space; insertion of the 8 bit flips of the following byte, the 6 structural symbols, a duplicate of the byte, \\ = and newline; for the two smallest document shapes signed at the first signature time by the key they name: substitution by all 255 other byte values and insertion of all 256 byte values"
 	if vk.Thorough() {
 		alpha = "substitution by all 255 other byte values; insertion of all 256 byte values"
 	}
@@ -275,10 +275,10 @@ func (r *runner) mutate2() {
 	if vk.Thorough() {
 		before, after, tail = 8, 6, 6
 	} else {
-		// quick: one signature time
+		// quick: one signature time, first key
 		var bs []*base
 		for _, b := range bases {
-			if b.tname == sigTimes[0].name {
+			if b.tname == sigTimes[0].name && b.key.idx == 0 {
 				bs = append(bs, b)
 			}
 		}
@@ -694,12 +694,13 @@ func TestCheck(t *testing.T) {
 		return
 	}
 	r.work = 1
-	r.signGrammar()
-	r.mutate1()
+	// cheap, structurally targeted scenarios first; the big spaces after
 	r.signerswap()
 	r.resign()
 	r.inject()
+	r.mutate1()
 	r.mutate2()
+	r.signGrammar()
 	for scen, m := range r.outcomes {
 		sc := res.Scenario(scen)
 		keys := make([]string, 0, len(m))
